@@ -15,12 +15,100 @@ VINTERNER_TB = [
     "is verified; static typed arenas, structural equality",
 ]
 
+ENGINE_SHADOW = {
+    "name": "chalk-engine",
+    "crate": "chalk-engine",
+    "cargo_toml": "harness/shadow/chalk-engine.Cargo.toml",
+    "appends": {
+        "src/slg.rs": [("harness/engine/c17_inval.rs", "verif_c17_inval")],
+    },
+}
+
+
+def engine_unit(*files, modules=None):
+    return {
+        "name": "engine",
+        "kind": "shadow",
+        "shadow": ENGINE_SHADOW,
+        "files": list(files),
+        "modules": modules or {},
+    }
+
+
+IR_SHADOW = {
+    "name": "chalk-ir",
+    "crate": "chalk-ir",
+    "cargo_toml": "harness/shadow/chalk-ir.Cargo.toml",
+    "appends": {
+        "src/fold/in_place.rs": [("harness/irshadow/c27.rs", "verif_c27")],
+    },
+}
+
+
+def irshadow_unit(*files, modules=None):
+    return {
+        "name": "irshadow",
+        "kind": "shadow",
+        "shadow": IR_SHADOW,
+        "files": list(files),
+        "modules": modules or {},
+    }
+
+
 def ir_unit(*files):
     return dict(IR_UNIT, files=list(files),
                 modules={f: os.path.splitext(os.path.basename(f))[0].replace("_classes", "") for f in files})
 
 
 PROPS = {
+    "C27": {
+        "units": [irshadow_unit("harness/irshadow/c27.rs",
+                                modules={"harness/irshadow/c27.rs": "fold::in_place::verif_c27"})],
+        "claim": "fallible_map_vec / fallible_map_box (chalk-ir/src/fold/in_place.rs, with the VecMappedInPlace drop "
+                 "guard): for every vector length 0..4, every capacity slack 0..2 and every index at which the map "
+                 "returns an error (or never), each element is dropped exactly once, on success nothing is dropped "
+                 "before the result is and the result has the mapped elements in order, and all of CBMC's pointer, "
+                 "bounds and deallocation checks on the unsafe code are discharged; same for boxes. Layouts: T = U, "
+                 "T != U with identical layout (in-place path), different layout and zero-sized (collect path).",
+        "bounds": "vector length <= 4, capacity slack <= 2, failing index symbolic (full usize), unwind 7; boxes: fail / succeed",
+        "outside": "the PANIC mode: Kani/CBMC model a panic as termination (no unwinding), so the guard's behaviour "
+                   "while unwinding is not decided (it is the same Drop impl in the same state as on the error path); "
+                   "vectors longer than 4; leak freedom beyond the exact drop counts",
+        "assumptions": ["the map consumes its argument (forget on success, drop on error), as folding does"],
+        "stubs": [],
+        "trusted_base": ["Kani's memory model of Vec / Box / the global allocator"],
+        "harness_note_default": "symbolic length and failing index; per-element drop counters; CBMC memory checks",
+        "level_text": "Bounded model checking (Kani/CBMC) of the real unsafe code with symbolic length, capacity and "
+                      "failure position; exact drop counts asserted per element; memory-safety checks of the unsafe "
+                      "blocks (pointer validity, double free) discharged by CBMC.",
+        "level_note": "Trusted: Kani/CBMC and its allocator model. Error mode only; the panic mode is outside (stated).",
+        "design_ref": "DESIGN.md §4.3",
+    },
+    "C17": {
+        "units": [engine_unit("harness/engine/c17_inval.rs",
+                              modules={"harness/engine/c17_inval.rs": "slg::verif_c17_inval"})],
+        "claim": "SubstitutionExt::may_invalidate (MayInvalidate::aggregate_*; chalk-engine/src/slg.rs) answers "
+                 "'cannot invalidate' only when the candidate answer is an instance of the current guidance, where the "
+                 "bound variables of the guidance must be instantiated consistently (non-linear guidance such as "
+                 "(X, X)). One constructor application per side over leaf children.",
+        "bounds": "one constructor application per side; two children; leaf kinds fixed per query (bound variable / "
+                  "ground / scalar / placeholder), payloads symbolic at full width including the indices of the "
+                  "guidance's bound variables (so repeated variables are covered); unwind 8",
+        "outside": "AntiUnifier / merge_into_guidance / make_solution as wholes (they go through InferenceTable: ena "
+                   "tables on the untyped heap, DESIGN.md P30); lifetimes (MayInvalidate answers 'may invalidate' for "
+                   "every lifetime pair, trivially conservative)",
+        "assumptions": ["canonical binders [Ty, Ty, Const] in the root universe; the substitutions are well-kinded and "
+                        "contain no free inference variables (MayInvalidate's documented contract)"],
+        "stubs": ["tracing, tracing-attributes: no-op stub crates via [patch.crates-io]"],
+        "trusted_base": VINTERNER_TB + ["harness-side one-sided matcher instance_of (m_ty)"],
+        "harness_note_default": "!may_invalidate(new, current) => new is an instance of current (consistent bindings)",
+        "level_text": "Bounded model checking (Kani/CBMC) of the real, crate-private MayInvalidate code reached from a "
+                      "harness module appended to a byte copy of chalk-engine/src/slg.rs; one structural step per "
+                      "constructor pair and leaf-kind class with all payloads symbolic.",
+        "level_note": "Trusted: Kani/CBMC; VInterner; the shadow-crate mechanism (sources copied verbatim from /repo on "
+                      "every run); the harness-side instance-of matcher.",
+        "design_ref": "DESIGN.md §4.5",
+    },
     "C25": {
         "units": [ir_unit("harness/ir/src/c25.rs", "harness/ir/src/c25_classes.rs")],
         "claim": "For every term of each class (7 type skeletons incl. function-pointer and trait-object binders, "
